@@ -76,7 +76,9 @@ Prog(cfg) ==
     [] cfg.shape = "fank" -> <<[op |-> "par", bs |-> [i \in 1..Len(N) |-> [us |-> NodeUnits(cfg, N[i]), k |-> OutKey(cfg, i)]]]>>
     \* workflow with field mappings that need a run-time check: producer a : string -> map[string]any {x: input, y: marker},
     \* MapFields(x -> X), MapFields(y -> Y) into consumer b : map[string]string -> string (X ++ Y ++ marker)
-    [] cfg.shape = "fmap" -> <<[op |-> "mapsrc", u |-> Unit(N[1].n, Range(N[1].nat), N[1].oc, FailOf(cfg, N[1].n))], [op |-> "fieldmap"],
+    \* (fmapn: the same with NESTED source paths o.x / o.y over chunks {o: {x: ..}} / {o: {y: ..}}: every chunk carries the outer key, the
+    \* inner key of a mapping may be absent from a chunk and is then skipped at ANY depth of the path; the model is nesting-blind)
+    [] cfg.shape \in {"fmap", "fmapn"} -> <<[op |-> "mapsrc", u |-> Unit(N[1].n, Range(N[1].nat), N[1].oc, FailOf(cfg, N[1].n))], [op |-> "fieldmap"],
                                [op |-> "join", u |-> Unit(N[2].n, Range(N[2].nat), N[2].oc, FailOf(cfg, N[2].n)), kx |-> "X", ky |-> "Y"]>>
     \* the edge a -> b carries a NAMED map type (nmap: as the chunk type itself, nmapn: nested under a key of a map[string]any chunk);
     \* wherever the consumer has no native stream input the engine concatenates the chunks (concatMaps keeps the chunk's own type;
@@ -246,7 +248,7 @@ vars == <<cfg, phase, pos, acc>>
 
 NoFail == [n |-> "", how |-> ""]
 EmptyCfg == [shape |-> "", nodes |-> <<>>, in |-> <<>>, dup |-> FALSE, pick |-> "", bstrm |-> FALSE, z |-> FALSE, fail |-> NoFail, anyout |-> FALSE]
-NodesWanted(sh) == CASE sh = "fofi" -> {5} [] sh \in {"ebr", "eskw", "eskg"} -> {3} [] sh \in {"nil1", "nilin"} -> {1} [] sh \in {"nil2", "nilif"} -> {2} [] sh = "nilbr" -> {3} [] sh = "fank" -> 4..MaxNodes [] sh \in {"fmap", "nmap", "nmapn"} -> {2} [] sh = "chain" -> 1..MaxNodes [] sh = "nested" -> 2..MaxNodes [] sh = "fan2" -> {2} [] sh = "fan3" -> {3}
+NodesWanted(sh) == CASE sh = "fofi" -> {5} [] sh \in {"ebr", "eskw", "eskg"} -> {3} [] sh \in {"nil1", "nilin"} -> {1} [] sh \in {"nil2", "nilif"} -> {2} [] sh = "nilbr" -> {3} [] sh = "fank" -> 4..MaxNodes [] sh \in {"fmap", "fmapn", "nmap", "nmapn"} -> {2} [] sh = "chain" -> 1..MaxNodes [] sh = "nested" -> 2..MaxNodes [] sh = "fan2" -> {2} [] sh = "fan3" -> {3}
                      [] sh = "branch" -> {3} [] sh = "keys" -> 1..(IF MaxNodes > 2 THEN 2 ELSE MaxNodes)
 HandlerOK(sh) == sh \in {"chain"}
 Init == cfg = EmptyCfg /\ phase = "shape" /\ pos = 0 /\ acc = <<>>
